@@ -22,14 +22,13 @@ theorem partial_loop_shape :
     firstBefore (call "elementTag") (call "Var") validatePartialLeafsOnly_events = true ∧
     firstBefore (call "Var") (call "coversValue") validatePartialLeafsOnly_events = true ∧
     firstBefore (call "coversValue") (call "Add") validatePartialLeafsOnly_events = true ∧
-    count (kw "for") validatePartialLeafsOnly_events = 3 ∧
     between (kw "endfor") (call "Add") (iff "maxErrors,len,Fields,maxErrors") validatePartialLeafsOnly_events = true ∧
     between (set "Truncated") (iff "maxErrors,len,Fields,maxErrors") (kw "break") validatePartialLeafsOnly_events = true ∧
     lastBefore (iff "maxErrors,len,Fields,maxErrors") (kw "endfor") validatePartialLeafsOnly_events = true ∧
     lastBefore (kw "endfor") (iff "HasErrors") validatePartialLeafsOnly_events = true ∧
     firstBefore (iff "HasErrors") (call "Sort") validatePartialLeafsOnly_events = true ∧
-    only "lit" validatePartialLeafsOnly_events =
-      ["validate", "", "tag.", "***REDACTED***", "***REDACTED***", "tag", "param", "value"] := by decide
+    firstBefore (lit "validate") (call "Var") validatePartialLeafsOnly_events = true ∧
+    firstBefore (lit "tag.") (call "Add") validatePartialLeafsOnly_events = true := by decide
 
 /-- `resolvePath` (model `resolveFrom`): pointers are dereferenced first (a nil one gives up); a numeric segment
     is an index only when the value is not a struct (K05d: the `Atoi` test carries the `Struct` guard); on a struct
@@ -88,7 +87,9 @@ theorem full_and_interface_shape :
     lastBefore (kw "endfor") (call "Sort") formatTagErrors_events = true ∧
     firstBefore (iff "maxErrors,len,Fields,maxErrors") (call "Sort") coerceToValidationErrors_events = true ∧
     between (set "Truncated") (iff "maxErrors,len,Fields,maxErrors") (call "Sort") coerceToValidationErrors_events = true ∧
-    ValidatePartial_events = [call "append", call "WithPresence", call "WithPartial", call "Validate", kw "return"] := by decide
+    firstBefore (call "WithPresence") (call "Validate") ValidatePartial_events = true ∧
+    firstBefore (call "WithPartial") (call "Validate") ValidatePartial_events = true ∧
+    count (call "Validate") ValidatePartial_events = 1 := by decide
 
 /-- `Validator.Validate` (model `validateTop`): the options are folded first; the custom validator runs before
     anything else and its error returns through `coerceToValidationErrors`; then `WithRunAll`; then the strategy —
